@@ -14,20 +14,7 @@
 (*   - inner hits = the other members, sorted by Before, then the window   *)
 (*     [from+1 .. from+size]                                               *)
 (***************************************************************************)
-EXTENDS Rank
-
-IdsOf0(X) == {d.id : d \in X}
-
-HitSeq(o) == [i \in DOMAIN o.ids |-> [id |-> o.ids[i], sb |-> o.sbits[i]]]
-IdsOfSeq(s) == [i \in DOMAIN s |-> s[i].id]
-
-NthSmallest(Sx, n) == CHOOSE x \in Sx : Cardinality({y \in Sx : y < x}) = n - 1
-
-(* the unique arrangement of the (distinct) elements of s under the strict *)
-(* total order Before                                                      *)
-SortSeqBy(s, Before(_, _)) ==
-  LET Sx == SeqToSet(s) IN
-  [i \in 1..Len(s) |-> CHOOSE x \in Sx : Cardinality({y \in Sx : Before(y, x)}) = i - 1]
+EXTENDS ListOps
 
 WindowOf(s, from, hassize, size) ==
   SubSeq(s, from + 1, IF hassize THEN MinI(Len(s), from + size) ELSE Len(s))
@@ -55,8 +42,6 @@ Collapsed(L, HasK(_), K(_), Before(_, _), opt) ==
 (* Structural requirements on any response (tops, inner) for the ranked    *)
 (* list L - they hold for Collapsed(L, ..) and also when only a prefix of  *)
 (* L was available to the collapse step (small limits).                    *)
-
-PosIn(L, h) == CHOOSE i \in DOMAIN L : L[i] = h
 
 OnePerValue(tops, K(_)) == \A i, j \in DOMAIN tops : i # j => K(tops[i]) # K(tops[j])
 
